@@ -97,9 +97,9 @@ UNIVERSE = {
     "bytes": _calls("__call__", [[b"ab"], [b""], ["ab"], [Zoo("bytearray")], [Zoo("bytes_subclass")],
                                  [None], [1], [E]]),
     "uuid4": _calls("__call__", [[U4], [U1], [U4_NCS], [U4_MS], [Zoo("uuid_nil")], [str(U4)], [None], [1], [E]]),
-    "datetime": _calls("__call__", [[DT], [D], [DT.isoformat()], [None], [0], [E],
+    "datetime": _calls("__call__", [[DT], [D], [DT.isoformat()], ["abc"], [""], ["2024-13-45"], [None], [0], [E],
                                     [Zoo("datetime_aware")]]),
-    "date": _calls("__call__", [[D], [DT], ["2020-01-02"], [None], [0], [E]]),
+    "date": _calls("__call__", [[D], [DT], ["2020-01-02"], ["abc"], [""], ["2024-13-45"], [None], [0], [E]]),
 }
 FAMILY = {"__call__": "value", "min": "min", "max": "max", "precision": "precision", "len": "len",
           "alphabet": "alphabet", "contains": "substr", "regex": "pattern"}
